@@ -118,8 +118,8 @@ Theorem C04_partition_blocks :
 Proof. intros parts. split; [intros pi; apply positions_of_sorted | apply positions_partition]. Qed.
 Print Assumptions C04_partition_blocks.
 
-(* Clauses kept as explicit statements: not proved for the model in this
-   revision; every generated case is checked against them by Corr/C04.v
+(* Clause kept as an explicit statement: not proved for the model in this
+   revision; every generated case is checked against it by Corr/C04.v
    spec_ok (bounded validation). *)
 Definition C04_refcoordinates_statement : Prop :=
   forall rs name s l st ln ref,
@@ -129,15 +129,21 @@ Definition C04_refcoordinates_statement : Prop :=
     firstn (Z.to_nat l) (skipn (Z.to_nat s) (ungapb ref)) /\
   nth (Z.to_nat st) ref x2d <> x2d /\ nth (Z.to_nat (st + ln - 1)) ref x2d <> x2d.
 
-Definition C04_prefix_suffix_statement : Prop :=
+(* cutting an alignment in two at any column and concatenating the parts gives it back *)
+Theorem C04_prefix_suffix :
   forall alpha rs k p q,
   rectangular rs -> NoDup (names rs) -> 0 <= k <= alen rs ->
   sub_align rs 0 k = Some p -> sub_align rs k (alen rs - k) = Some q ->
   concat alpha alpha p q = (rs, true).
+Proof. exact prefix_suffix_concat. Qed.
+Print Assumptions C04_prefix_suffix.
 
-Definition C04_transpose_twice_statement : Prop :=
+(* transposing twice gives the residues back *)
+Theorem C04_transpose_twice :
   forall rs, rectangular rs -> 0 < alen rs ->
   map snd (transpose (transpose rs)) = map snd rs.
+Proof. exact transpose_twice. Qed.
+Print Assumptions C04_transpose_twice.
 
 Example C04_nonvacuous :
   let rs := [([x61], [x41; x2d; x43; x47]); ([x62], [x54; x54; x2d; x41])] in
